@@ -1,7 +1,7 @@
 (* C03 — the statements of Properties/C03.v, assembled from the proof files. *)
 From Coq Require Import List Arith NArith Bool Lia ZifyN ZifyNat ZifyBool.
 From FS Require Import Sx Model.Path Model.Stat Model.Validator Model.Fs Model.DiskWriterFs.
-From FS Require Import Proofs.Lex Proofs.PathP Proofs.FsP Proofs.FsReachP Proofs.RecvP Proofs.FsWfP Proofs.RecvOldP.
+From FS Require Import Proofs.Lex Proofs.PathP Proofs.ValidatorP Proofs.FsP Proofs.FsReachP Proofs.RecvP Proofs.FsWfP Proofs.RecvOldP.
 Import ListNotations.
 Open Scope N_scope.
 Open Scope bool_scope.
@@ -20,38 +20,47 @@ Proof.
   intros i Hi [H|H]; [apply (st_frame _ _ _ _ _ S i H Hi)|apply (st_nd _ _ _ _ _ S i Hi H)].
 Qed.
 
-Theorem receiver_contained_merge :
-  forall (f : fs) (root D : N) (dl : bool) (tmps : list bytes) (pks : list packet) (j : nat),
-    wf D f -> (forall t, tmpname tmps t -> okname t) -> tmp_unused D f tmps ->
-    Forall (clean_packet tmps) pks ->
-    outside_unchanged D f (recv_fs_prefix f root D dl true tmps pks j).
-Proof.
-  intros f root D dl tmps pks j W Ht Hu Hc. unfold recv_fs_prefix.
-  apply (step_outside D TAll). apply (recv_merge_step D root f tmps dl W Ht pks (Some j) Hu Hc).
-Qed.
+(* what the theorems ask of ReceiveOpt.Filter: the copy of the stat keeps type bits and link name,
+   and what is rejected is rejected with everything below it *)
+Definition filter_ok (fl : rfilter) : Prop :=
+  (forall s, st_mode (f_map fl s) = st_mode s) /\ (forall s, st_linkname (f_map fl s) = st_linkname s)
+  /\ (forall p q, ok_path p = true -> ok_path q = true -> f_rej fl p = true ->
+        is_prefix (comps p) (comps q) -> f_rej fl q = true).
+
+Lemma no_filter_ok : filter_ok no_filter.
+Proof. split; [reflexivity|]. split; [reflexivity|]. intros p q _ _ H. discriminate. Qed.
 
 (* both settings of ReceiveOpt.Merge: without Merge the old content of dest is walked first and
    diffed against the stream (entries the stream does not name are removed, entries it names
    with the same metadata are left alone); Proofs/RecvOldP.v carries the invariant of that
    listing through the loop *)
+Theorem receiver_contained_f :
+  forall (fl : rfilter) (f : fs) (root D : N) (dl merge : bool) (tmps : list bytes) (pks : list packet) (j : nat),
+    filter_ok fl ->
+    wf D f -> (forall t, tmpname tmps t -> okname t) -> tmp_unused D f tmps ->
+    Forall (clean_packet tmps fl) pks ->
+    outside_unchanged D f (r_fs (recv_run_f fl f root D dl merge tmps pks (Some j))).
+Proof.
+  intros fl f root D dl merge tmps pks j (H1 & H2 & H3) W Ht Hu Hc. apply (step_outside D TAll). destruct merge.
+  - apply (recv_merge_step D root f tmps dl W fl H1 H2 H3 Ht pks (Some j) Hu Hc).
+  - apply (recv_nomerge_step D root f tmps dl W fl H1 H2 H3 Ht Hu pks (Some j) Hc).
+Qed.
+
 Theorem receiver_contained_proof :
   forall (f : fs) (root D : N) (dl merge : bool) (tmps : list bytes) (pks : list packet) (j : nat),
     wf D f -> (forall t, tmpname tmps t -> okname t) -> tmp_unused D f tmps ->
-    Forall (clean_packet tmps) pks ->
+    Forall (clean_packet tmps no_filter) pks ->
     outside_unchanged D f (recv_fs_prefix f root D dl merge tmps pks j).
 Proof.
-  intros f root D dl merge tmps pks j W Ht Hu Hc. destruct merge.
-  - apply receiver_contained_merge; auto.
-  - unfold recv_fs_prefix. apply (step_outside D TAll).
-    apply (recv_nomerge_step D root f tmps dl W Ht Hu pks (Some j) Hc).
+  intros. unfold recv_fs_prefix, recv_run. apply receiver_contained_f; auto. apply no_filter_ok.
 Qed.
 
 (* the same with the hypotheses in executable form *)
 Definition domain_b (fuel : nat) (f : fs) (D : N) (tmps : list bytes) (pks : list packet) : bool :=
-  wf_b fuel f D && tmps_ok_b tmps && tmp_unused_b fuel f D tmps && forallb (clean_packet_b tmps) pks.
+  wf_b fuel f D && tmps_ok_b tmps && tmp_unused_b fuel f D tmps && forallb (clean_packet_b tmps no_filter) pks.
 
 Lemma domain_b_ok fuel f D tmps pks : domain_b fuel f D tmps pks = true ->
-  wf D f /\ (forall t, tmpname tmps t -> okname t) /\ tmp_unused D f tmps /\ Forall (clean_packet tmps) pks.
+  wf D f /\ (forall t, tmpname tmps t -> okname t) /\ tmp_unused D f tmps /\ Forall (clean_packet tmps no_filter) pks.
 Proof.
   unfold domain_b. intros H.
   apply andb_true_iff in H. destruct H as [H H4].
